@@ -2,6 +2,7 @@ import SophiaProofs.Lemmas.JsonLdRender
 import SophiaProofs.Lemmas.JsonLdMark
 import SophiaProofs.Lemmas.JsonLdRoundTrip
 import SophiaProofs.Lemmas.JsonLdTerm
+import SophiaProofs.Lemmas.JsonLdLists
 
 /-!
 C12 — JSON-LD serialisation round-trips every representable dataset.
@@ -21,16 +22,47 @@ open SophiaModel.JsonLd.RdfObject (startsBn)
 /-- the source uses `self.unique_parent.get(s_id)` (regenerated table; `rfl` fails if /repo goes back to indexing) -/
 theorem unique_parent_lookup_is_get : Gen.JsonLdFlags.uniqueParentGet = true := rfl
 
+/-- the model's string constants and the size bounds of `is_list_node` / `is_compound_literal` are those of engine.rs
+(table regenerated from the source on every run; fails if a constant of the source changes) -/
+theorem constants_as_in_source :
+    rdfFirst = Gen.JsonLdFlags.RDF_FIRST.toList ∧ rdfRest = Gen.JsonLdFlags.RDF_REST.toList ∧
+    rdfNil = Gen.JsonLdFlags.RDF_NIL.toList ∧ rdfList = Gen.JsonLdFlags.RDF_LIST.toList ∧
+    rdfJson = Gen.JsonLdFlags.RDF_JSON.toList ∧ rdfValue = Gen.JsonLdFlags.RDF_VALUE.toList ∧
+    rdfDirection = Gen.JsonLdFlags.RDF_DIRECTION.toList ∧ rdfLanguage = Gen.JsonLdFlags.RDF_LANGUAGE.toList ∧
+    xsdString = Gen.JsonLdFlags.XSD_STRING.toList ∧ nsI18n = Gen.JsonLdFlags.NS_18N.toList ∧
+    (∀ m : NodeMap, isListNode m = true → Gen.JsonLdFlags.nodeLenMin ≤ m.length ∧ m.length ≤ Gen.JsonLdFlags.nodeLenMax) ∧
+    (∀ m : NodeMap, isCompoundLiteral m = true →
+      Gen.JsonLdFlags.nodeLenMin ≤ m.length ∧ m.length ≤ Gen.JsonLdFlags.nodeLenMax) := by
+  refine ⟨by decide, by decide, by decide, by decide, by decide, by decide, by decide, by decide, by decide, by decide,
+    fun m h => ?_, fun m h => ?_⟩
+  · unfold isListNode at h
+    simp only [Bool.and_eq_true, decide_eq_true_eq] at h
+    exact ⟨h.1.1.1.1, h.1.1.1.2⟩
+  · unfold isCompoundLiteral at h
+    simp only [Bool.and_eq_true, decide_eq_true_eq] at h
+    exact ⟨h.1.1.1.1, h.1.1.1.2⟩
+
 /-! ## 1. no panic, termination -/
 
-/-- full-strength statement (OPEN): on every dataset with absolute IRIs the serializer returns a document —
-no `HashMap` / slice / `[0]` panic, no loop that fails to terminate (`Fail.fuel`).  (With a one-byte IRI `&id[..2]`
-does panic: `quadAbs` is the property's "IRI".)  Proved: `no_panic_partial` (the whole marking phase, every dataset)
-and `roundtrip_nolist` (everything, datasets without list vocabulary).  Missing obligation: the rendering of marked
-lists — `populate_list`'s `map[RDF_FIRST][0]`, `map[RDF_REST][0]` and its loop need "a `Node(i, id)` value whose id is
-in `list_node` sits in the unique parent's slot, hence `i` is the marked slot, and following `rdf:rest` from it
-ends at `rdf:nil`"; the differential has never seen either fail (15 k cases per quick run, 200 k thorough; `fuel` field). -/
+/-- full-strength statement: on every dataset with absolute IRIs the serializer returns a document — no `HashMap` /
+slice / `[0]` panic, no loop that fails to terminate (`Fail.fuel`).  PROVED: `no_panic` (no panicking expression is
+ever reached: all datasets, all option settings), `no_panic_partial` (the marking phase returns: no panic AND it
+terminates), `no_panic_nolist` (the whole statement for datasets without list vocabulary).  OPEN: termination of the
+RENDERING of marked lists (`populate_list` is a `loop`, `convert_rdf_object` recurses into nested lists): missing
+obligation "no cell is reachable from itself through `rdf:first` / `rdf:rest` links of marked cells starting at a
+rendered (= unmarked) node" — cyclic marked structures exist (`selfList`), but by `Marked` each of their cells has its
+only occurrence inside the cycle, so no rendered node refers to them; the differential has never seen `fuel`
+(15 k cases per quick run, 200 k thorough).  The hypothesis is necessary: `no_panic_needs_absolute_iris`. -/
 def NoPanic : Prop := ∀ (o : Opts) (D : List Quad), (∀ q ∈ D, quadAbs q = true) → ∃ doc, serialize o D = .ok doc
+
+/-- a small dataset with every shape the renderer treats specially -/
+def crossGraphDemo : List Quad :=
+  [⟨.iri "http://x/s".toList, .iri "http://x/p".toList, .bnode ['l'], none⟩,
+   ⟨.bnode ['l'], .iri rdfFirst, .bnode ['n'], none⟩, ⟨.bnode ['l'], .iri rdfRest, .iri rdfNil, none⟩,
+   ⟨.bnode ['n'], .iri rdfFirst, .lit ['1'] rdfJson, none⟩, ⟨.bnode ['n'], .iri rdfRest, .iri rdfNil, none⟩,
+   ⟨.bnode ['n'], .iri rdfType, .iri rdfList, none⟩,
+   ⟨.bnode ['c'], .iri rdfValue, .lit ['v'] xsdString, some (.bnode ['l'])⟩,
+   ⟨.bnode ['c'], .iri rdfDirection, .lit ['r', 't', 'l'] xsdString, some (.bnode ['l'])⟩]
 
 /-- `_:l rdf:first <http://x/a> . _:l rdf:rest rdf:nil .` — nothing refers to `_:l`; the input that panicked
 (`no entry found for key`) before 949b852 -/
@@ -69,6 +101,68 @@ example : (match markAll {} (processQuads {} (
      ⟨.bnode ['y'], .iri rdfFirst, .iri "http://x/a".toList, some (.iri "http://x/g".toList)⟩,
      ⟨.bnode ['p'], .iri "http://x/p".toList, .bnode ['x'], some (.iri "http://x/g".toList)⟩])) [2] [] with
     | .ok ln => ln | .error _ => []) = [("_:y".toList, 0), ("_:x".toList, 5)] := by decide
+
+/-- the engine `into_json` renders, given the outcome `ln` of the marking phase -/
+def rendered (o : Opts) (E : Engine) (ln : List (Id × Nat)) : Engine :=
+  let E1 := { E with listSeeds := [], listNode := ln }
+  if o.dir == .compound then
+    { E1 with compound := E1.compound.filter (fun i => isCompoundLiteral (E1.node.getD i [])) }
+  else E1
+
+theorem intoJson_eq (o : Opts) (E : Engine) (ln : List (Id × Nat)) (h : markAll o E E.listSeeds [] = .ok ln) :
+    intoJson o E = jsonifyAll o (rendered o E ln) (List.range E.node.length) := by
+  unfold intoJson rendered
+  rw [h]
+  simp only
+  split <;> rfl
+
+theorem renderOk_processQuads (o : Opts) (D : List Quad) (hq : ∀ q ∈ D, quadAbs q = true) (ln : List (Id × Nat))
+    (h : markAll o (processQuads o D) (processQuads o D).listSeeds [] = .ok ln) :
+    RenderOk o (rendered o (processQuads o D) ln) := by
+  have hp := pinv_processQuads o D
+  have ho := oinv_processQuads o D hq
+  have hg := ginv_processQuads o D hq
+  have hm := markAll_marked o _ D hp (inv_processQuads o D) _ [] ln (fun _ h => h) (marked_nil _) h
+  generalize processQuads o D = E at hp ho hg hm
+  unfold rendered
+  split
+  · rename_i hc
+    refine ⟨hp.aligned, hp.uniq, ⟨ho.slot, ho.recd⟩, hm, hg.maps, fun _ i hi => ?_⟩
+    simp only [List.contains_eq_mem, List.mem_filter, decide_eq_true_eq] at hi
+    exact hi.2
+  · rename_i hc
+    refine ⟨hp.aligned, hp.uniq, ⟨ho.slot, ho.recd⟩, hm, hg.maps, fun hd => ?_⟩
+    rw [hd] at hc; simp at hc
+
+/-- **no_panic** (half of `NoPanic`): on every dataset with absolute IRIs, in every mode and with every option setting
+(use_rdf_type, rdf_direction none / i18n-datatype / compound-literal), the serializer never reaches a panicking
+expression: not `unique_parent[..]`, not `&id[..2]`, not `map[RDF_FIRST][0]` / `map[RDF_REST][0]` in `populate_list`,
+not `node[RDF_VALUE][0]` / `node[RDF_DIRECTION][0]`, not `unreachable!()` in `make_node_object`. -/
+theorem no_panic (o : Opts) (D : List Quad) (hq : ∀ q ∈ D, quadAbs q = true) : isPanic (serialize o D) = false := by
+  obtain ⟨ln, hln⟩ := no_panic_partial o D
+  unfold serialize
+  rw [intoJson_eq o _ ln hln]
+  exact jsonifyAll_no_panic o _ (renderOk_processQuads o D hq ln hln) _
+
+/-- **suppressed_only_list_cells** (the mechanism "a node is suppressed only if it is a list node whose unique parent is
+in the same graph"): every label `jsonify` suppresses on account of `list_node` is, in ONE graph `g`, a blank node of
+list shape whose unique parent `ip` (the only slot, under the only key, where the label occurs as an object) lies in
+`g` as well, and whose single `rdf:rest` value is `rdf:nil` or again such a cell of `g`.  (What is NOT guaranteed — the
+suppression is by label, so the descriptions of the same label in OTHER graphs are suppressed too — is
+`roundtrip_refuted_cross_graph`.) -/
+theorem suppressed_only_list_cells (o : Opts) (D : List Quad) :
+    ∃ ln, markAll o (processQuads o D) (processQuads o D).listSeeds [] = .ok ln ∧ Marked (processQuads o D) ln := by
+  obtain ⟨ln, hln⟩ := no_panic_partial o D
+  exact ⟨ln, hln, markAll_marked o _ D (pinv_processQuads o D) (inv_processQuads o D) _ [] ln (fun _ h => h)
+    (marked_nil _) hln⟩
+
+/-- with a one-byte IRI `&id[..2]` does panic (and so does the real serializer: generator shape `relative_iri`, where
+model and implementation agree on `panic=1`): the hypothesis of `no_panic` cannot be dropped -/
+theorem no_panic_needs_absolute_iris :
+    isPanic (serialize {} [⟨.iri "http://x/s".toList, .iri "http://x/p".toList, .iri ['a'], none⟩]) = true := by decide
+
+/-- `no_panic` is not vacuous: a dataset with a nested list, a typed list cell and a compound literal shape -/
+example : ∀ q ∈ (crossGraphDemo : List Quad), quadAbs q = true := by decide
 
 /-! ## 2. the only quads omitted from the engine's input are those `is_jsonld` rejects -/
 
@@ -151,11 +245,23 @@ private def b : Term := .bnode ['b']
 def NoListVocab (D : List Quad) : Prop :=
   ∀ q ∈ D, isIriC rdfFirst q.p = false ∧ isIriC rdfRest q.p = false ∧ isIriC rdfNil q.o = false
 
-/-- statement of the no-list round trip: for modes 1.0 / 1.1 × use_rdf_type, rdf_direction unset, absolute IRIs, a
+/-- when the `rdf_direction` setting (the same on both sides) is lossless for `D`: unset — always; `i18n-datatype` —
+every literal datatype in the i18n namespace is a well-formed `…i18n#<lang>_<dir>` with both parts non-empty (`…#_rtl`
+and `…#en_` are not: finding C12-i18n-datatype-without-language, `roundtrip_refuted_i18n`); `compound-literal` — no
+quad has the predicate rdf:direction (with one, the node is turned into a value object that json-ld 0.15.1 reads back
+without its triples: finding C12-compound-literal-lost, `roundtrip_refuted_compound`) -/
+def DirOk (o : Opts) (D : List Quad) : Prop :=
+  match o.dir with
+  | .none => True
+  | .i18n => ∀ q ∈ D, ∀ lex dt, q.o = .lit lex dt → startsWith dt nsI18n = true →
+      ∃ tag d, tag ≠ [] ∧ d ≠ [] ∧ splitUnderscore (dt.drop nsI18n.length) = (tag, some d)
+  | .compound => ∀ q ∈ D, isIriC rdfDirection q.p = false
+
+/-- statement of the no-list round trip: for modes 1.0 / 1.1 × use_rdf_type × every rdf_direction setting that is lossless for the dataset (`DirOk`), absolute IRIs, a
 dataset without list vocabulary — default and named graphs, blank graph names, blank nodes shared between graphs,
 every kind of literal, rdf:type with IRI / blank / literal objects — round-trips.  PROVED: `roundtrip_nolist`. -/
 def RoundtripNoList : Prop :=
-  ∀ o D, o.dir = .none → (∀ q ∈ D, quadAbs q = true) → NoListVocab D → RoundTrips o D
+  ∀ o D, DirOk o D → (∀ q ∈ D, quadAbs q = true) → NoListVocab D → RoundTrips o D
 
 example : NoListVocab [⟨s, p, a, some g⟩, ⟨b, .iri rdfType, .lang ['x'] ['e', 'n'], none⟩, ⟨b, p, b, some b⟩] ∧
     (∀ q ∈ [⟨s, p, a, some g⟩, ⟨b, .iri rdfType, .lang ['x'] ['e', 'n'], none⟩, (⟨b, p, b, some b⟩ : Quad)],
@@ -168,43 +274,49 @@ example : NoListVocab [⟨s, p, a, some g⟩, ⟨b, .iri rdfType, .lang ['x'] ['
     simp only [List.mem_cons, List.not_mem_nil, or_false] at hq
     rcases hq with rfl | rfl | rfl <;> decide
 
-theorem roundtrip_nolist_partial (o : Opts) (D : List Quad) (hd : o.dir = .none)
+theorem roundtrip_nolist_partial (o : Opts) (D : List Quad)
+    (hc : o.dir = .compound → (processQuads o D).compound = [])
     (hok : ∀ q ∈ D, quadOk q = true) (hnl : NoListVocab D) :
     -- (1) the engine holds exactly the expressible quads
     (∀ q, Denotes (processQuads o D) q ↔ q ∈ D.filter isJsonLd) ∧
-    -- (2) no list node is marked and the document renders every slot that is non-empty
-    --     (default-graph slots at the root, the others below their graph's node)
+    -- (2) no list node is marked (and no compound-literal candidate kept): the document is the root loop over the
+    --     engine as `process_quads` left it
     serialize o D = jsonifyAll o { processQuads o D with listSeeds := [], listNode := [] }
-        (List.range (processQuads o D).node.length) ∧
-    (∀ E : Engine, E.listNode = [] → ∀ i root, skipped o E i root =
-        ((E.node.getD i []).isEmpty || (root && (E.gsId.getD i ([], [])).1 != dflt))) := by
-  refine ⟨denotes_processQuads o D hok, ?_, ?_⟩
-  · have hs := nolist_no_seeds o D (fun q hq => (hnl q hq).2.1)
-    simp [serialize, intoJson, hs, markAll, hd]
-  · intro E hE i root
-    simp [skipped, hE, hd, lookup]
+        (List.range (processQuads o D).node.length) := by
+  refine ⟨denotes_processQuads o D hok, ?_⟩
+  have hs := nolist_no_seeds o D (fun q hq => (hnl q hq).2.1)
+  unfold serialize
+  generalize processQuads o D = E at hc hs ⊢
+  cases hdir : o.dir with
+  | none => simp [intoJson, hs, markAll, hdir]
+  | i18n => simp [intoJson, hs, markAll, hdir]
+  | compound =>
+    have hce := hc hdir
+    simp [intoJson, hs, markAll, hdir, hce]
 
 /-- rendering half of the no-list round trip at node-object level (see `RoundtripNoList`) -/
 theorem node_object_roundtrip (o : Opts) (E : Engine) (base : Str) (s : Term)
-    (hd : o.dir = .none) (hln : E.listNode = []) (m : NodeMap) (n : Nat)
+    (hc : o.dir = .compound → E.compound = []) (hln : E.listNode = []) (m : NodeMap) (n : Nat)
     (hm : ∀ k vs, (k, vs) ∈ m → ∀ v ∈ vs, (k = kType → v.isNode = true) ∧
-      ∀ i id, v = .node i id → (prefix2 id).isSome = true) :
+      (∀ i id, v = .node i id → (prefix2 id).isSome = true) ∧ (k ≠ kGraph → LitOk o v)) :
     ∃ es, makeEntries o E m = .ok es ∧ entriesRdf o base s es n = (slotTriples s m, n) :=
-  entries_roundtrip o E base s hd hln m n hm
+  entries_roundtrip o E base s hc hln m n hm
 
 /-- its side conditions are satisfiable by a map with every kind of value -/
 example : ∀ k vs, (k, vs) ∈ ([(kType, [.node 1 rdfList]), ("http://x/p".toList, [.typed ['5'] xsdString,
       .langString ['a'] ['e', 'n'], .node 2 ['_', ':', 'b'], .node 3 rdfNil, .typed ['1'] rdfJson])] : NodeMap) →
-    ∀ v ∈ vs, (k = kType → v.isNode = true) ∧ ∀ i id, v = .node i id → (prefix2 id).isSome = true := by
+    ∀ v ∈ vs, (k = kType → v.isNode = true) ∧ (∀ i id, v = .node i id → (prefix2 id).isSome = true) ∧
+      (k ≠ kGraph → LitOk {} v) := by
   intro k vs hm v hv
   simp only [List.mem_cons, List.not_mem_nil, or_false, Prod.mk.injEq] at hm
   rcases hm with ⟨rfl, rfl⟩ | ⟨rfl, rfl⟩
   · simp only [List.mem_cons, List.not_mem_nil, or_false] at hv
     subst hv
-    exact ⟨fun _ => rfl, fun i id h => by cases h; decide⟩
+    exact ⟨fun _ => rfl, fun i id h => by cases h; decide, fun _ => trivial⟩
   · simp only [List.mem_cons, List.not_mem_nil, or_false] at hv
-    refine ⟨fun h => absurd h (by decide), fun i id h => ?_⟩
-    rcases hv with rfl | rfl | rfl | rfl | rfl <;> cases h <;> decide
+    refine ⟨fun h => absurd h (by decide), fun i id h => ?_, fun _ => ?_⟩
+    · rcases hv with rfl | rfl | rfl | rfl | rfl <;> cases h <;> decide
+    · rcases hv with rfl | rfl | rfl | rfl | rfl <;> first | trivial | (intro h; cases h)
 
 theorem renameT_id (t : Term) : renameT id t = t := by cases t <;> rfl
 
@@ -220,17 +332,33 @@ the expressible quads of the input — none dropped, none duplicated (as sets), 
 engine holds exactly the expressible quads), `GInv` (the `@graph` links are sound and complete, the stored values
 satisfy the side conditions of the renderer), `jsonifyAll_rt2` (root loop + `@graph` children render every slot,
 `node_object_roundtrip` per slot), `mem_rootQ_iff`. -/
-theorem roundtrip_nolist (o : Opts) (D : List Quad) (hd : o.dir = .none)
+theorem roundtrip_nolist (o : Opts) (D : List Quad) (hdir : DirOk o D)
     (hok : ∀ q ∈ D, quadAbs q = true) (hnl : NoListVocab D) : RoundTrips o D := by
   have hok' : ∀ q ∈ D, quadOk q = true := fun q hq => quadAbs_ok (hok q hq)
-  obtain ⟨hden, hser, _⟩ := roundtrip_nolist_partial o D hd hok' hnl
+  -- the option is lossless here: no compound-literal candidate, every i18n literal well-formed
+  have hc : o.dir = .compound → (processQuads o D).compound = [] := by
+    intro hd
+    unfold DirOk at hdir; rw [hd] at hdir
+    exact nodir_no_compound o D hdir
+  obtain ⟨hden, hser⟩ := roundtrip_nolist_partial o D hc hok' hnl
   have inv := ginv_processQuads o D hok
-  generalize hE : processQuads o D = E at hden hser inv
+  have hlits : ∀ m ∈ (processQuads o D).node, LitsOk o m := by
+    intro m hm k vs hk hkg v hv
+    cases v with
+    | typed lex dt =>
+      intro hd hsw
+      obtain ⟨q, hq, hqo⟩ := stored_typed_from_input inv.aligned hm hk hkg hv
+      have hqD : q ∈ D := (List.mem_filter.mp ((hden q).mp hq)).1
+      unfold DirOk at hdir; rw [hd] at hdir
+      exact hdir q hqD lex dt hqo hsw
+    | langString _ _ => trivial
+    | node _ _ => trivial
+  generalize hE : processQuads o D = E at hden hser inv hc hlits
   have inv' : GInv { E with listSeeds := [], listNode := [] } :=
     ⟨inv.aligned, inv.ids, inv.maps, inv.sound, inv.complete⟩
   obtain ⟨doc, hdoc, hrdf⟩ := jsonifyAll_rt2 o { E with listSeeds := [], listNode := [] }
     (List.replicate (maxIdLen (match serialize o D with | .ok d => d | .error _ => []) + 1) 'c')
-    hd rfl (List.range E.node.length) 0 (fun i hi => rootOk_of_ginv inv' (List.mem_range.mp hi))
+    hc rfl (List.range E.node.length) 0 (fun i hi => rootOk_of_ginv inv' hlits (List.mem_range.mp hi))
   have hs : serialize o D = .ok doc := hser.trans hdoc
   refine ⟨doc, hs, id, fun a b h => h, fun q => ?_⟩
   simp only [hs] at hrdf
@@ -249,7 +377,7 @@ theorem roundtrip_nolist (o : Opts) (D : List Quad) (hd : o.dir = .none)
 theorem roundtrip_nolist_closed : RoundtripNoList := fun o D hd hok hnl => roundtrip_nolist o D hd hok hnl
 
 /-- hence no panic / non-termination anywhere in the serializer on that fragment (cf. `NoPanic`) -/
-theorem no_panic_nolist (o : Opts) (D : List Quad) (hd : o.dir = .none) (hok : ∀ q ∈ D, quadAbs q = true)
+theorem no_panic_nolist (o : Opts) (D : List Quad) (hd : DirOk o D) (hok : ∀ q ∈ D, quadAbs q = true)
     (hnl : NoListVocab D) : ∃ doc, serialize o D = .ok doc :=
   let ⟨doc, h, _⟩ := roundtrip_nolist o D hd hok hnl; ⟨doc, h⟩
 
@@ -298,6 +426,54 @@ theorem roundtrip_refuted_typed_list : ¬ RoundTrips {} typedList := by
   have : (outQuads {} typedList).all (fun q => q.o != .iri rdfList) = true := by decide
   have := List.all_eq_true.mp this q2 hq2
   simp [ho'] at this
+
+/-! ### the `rdf_direction` settings: `DirOk` is satisfiable, and necessary -/
+
+/-- `"x"^^i18n:en_ltr` -/
+def i18nGood : List Quad := [⟨s, p, .lit ['x'] (nsI18n ++ "en_ltr".toList), none⟩, ⟨s, p, .lang ['y'] ['f', 'r'], some g⟩]
+/-- `"x"^^i18n:_rtl` (direction without language) -/
+def i18nBad : List Quad := [⟨s, p, .lit ['x'] (nsI18n ++ "_rtl".toList), none⟩]
+
+example : DirOk { dir := .i18n } i18nGood := by
+  intro q hq lex dt ho _
+  simp only [i18nGood, List.mem_cons, List.not_mem_nil, or_false] at hq
+  rcases hq with rfl | rfl
+  · injection ho with _ h2
+    subst h2
+    exact ⟨"en".toList, "ltr".toList, by decide, by decide, by decide⟩
+  · cases ho
+
+example : outQuads { dir := .i18n } i18nGood = i18nGood := by decide
+
+/-- with `i18n-datatype` on both sides `…i18n#_rtl` comes back as `…i18n#rtl` (json-ld 0.15.1 drops the underscore
+when there is no language): `DirOk` cannot be weakened to "any i18n datatype" -/
+theorem roundtrip_refuted_i18n : ¬ RoundTrips { dir := .i18n } i18nBad := by
+  rintro ⟨doc, hdoc, hiso⟩
+  rw [outQuads_of_ok hdoc] at hiso
+  obtain ⟨q2, hq2, _, ho, _⟩ := hiso.image (q := ⟨s, p, .lit ['x'] (nsI18n ++ "_rtl".toList), none⟩) (by decide)
+  have ho' : q2.o = .lit ['x'] (nsI18n ++ "_rtl".toList) := ho (by decide)
+  have : (outQuads { dir := .i18n } i18nBad).all (fun q => q.o != .lit ['x'] (nsI18n ++ "_rtl".toList)) = true := by
+    decide
+  have := List.all_eq_true.mp this q2 hq2
+  simp [ho'] at this
+
+/-- `<s> <p> _:b . _:b rdf:value "v" . _:b rdf:direction "rtl" .` -/
+def compoundShape : List Quad :=
+  [⟨s, p, b, none⟩, ⟨b, .iri rdfValue, .lit ['v'] xsdString, none⟩, ⟨b, .iri rdfDirection, .lit ['r', 't', 'l'] xsdString, none⟩]
+
+example : DirOk { dir := .compound } [⟨s, p, b, none⟩, ⟨b, .iri rdfValue, .lit ['v'] xsdString, some g⟩] := by
+  intro q hq
+  simp only [List.mem_cons, List.not_mem_nil, or_false] at hq
+  rcases hq with rfl | rfl <;> decide
+
+/-- with `compound-literal` on both sides the rdf:value / rdf:direction quads of a compound-literal shape never come back -/
+theorem roundtrip_refuted_compound : ¬ RoundTrips { dir := .compound } compoundShape := by
+  rintro ⟨doc, hdoc, hiso⟩
+  rw [outQuads_of_ok hdoc] at hiso
+  obtain ⟨q2, hq2, hp2, _⟩ := hiso.image (q := ⟨b, .iri rdfValue, .lit ['v'] xsdString, none⟩) (by decide)
+  have : (outQuads { dir := .compound } compoundShape).all (fun q => q.p != .iri rdfValue) = true := by decide
+  have := List.all_eq_true.mp this q2 hq2
+  simp [hp2] at this
 
 theorem suppressed_compensated_refuted : ¬ SuppressedCompensated := fun h =>
   roundtrip_refuted_cross_graph (h {} crossGraph rfl (by decide))
